@@ -135,6 +135,9 @@ fn check_state(pid: &str, kind: Kind, ops: &[MOp], m: &Msg, case: &str, hist: &[
         return;
     }
     l.nontrivial(case);
+    if l.samples.is_empty() && hist.len() >= 3 {
+        l.sample(|| json!({"space": format!("bfs.c06.{:?}", kind), "history": case, "checked": "built -> to_vec/to_tagged_vec -> from_slice/from_tagged_slice -> verify/decrypt with recording closure == (stored value, bytes the creator saw); perturbed AAD / payload / protected headers change the bytes"}));
+    }
     let ck = Ck { pid, kind, case };
     let rec = Recorder::default();
     let built = match msgbuild::real_run(kind, ops, hist, &rec) {
